@@ -409,27 +409,11 @@ theorem terminated_releases (topo : List Nat) (s : St) (old : Option Obj) (o : O
 example : restore exA.uid exA.excl (persist exA) = some exA :=
   restore_persist exA (by decide) (by decide) (by decide)
 
-/-- FULL STATEMENT (does NOT hold for the code as written): the exclusive policy an allocation was
-    made with can be read back from the persisted object, `∀ kind a, persistedExcl kind a = a.excl`.
-    Refuted for a Reservation that carries its resource spec on `spec.template` (kind 2): PreBind
-    writes a spec without the exclusive policy onto the Reservation, which shadows the template's.
-    Finding `C19:numa-reservation-excl-shadowed`. -/
-theorem reservation_excl_shadowed_counterexample : ¬ (∀ kind a, persistedExcl kind a = a.excl) := by
-  intro h
-  have := h 2 exA
-  revert this
-  decide
-
-/-- PROVED PART (`_partial`): the policy survives for pods, for Reservations carrying the spec in
-    their own annotations, and whenever no CPU set was allocated. -/
-theorem persistedExcl_partial (kind : Nat) (a : PodAlloc) (h : kind ≠ 2 ∨ a.cpus = []) :
-    persistedExcl kind a = a.excl := by
-  unfold persistedExcl
-  rw [if_neg]
-  intro hh
-  rcases h with h | h
-  · exact h hh.1
-  · exact hh.2 h
+/-- the exclusive policy an allocation was made with can be read back from the persisted object,
+    for pods and for Reservations carrying their resource spec on themselves or on `spec.template`
+    (the last case was finding `C19:numa-reservation-excl-shadowed`, repaired by commit 50a5eb3;
+    the harness still exercises all three kinds and keeps the fingerprint). -/
+theorem persistedExcl_eq (kind : Nat) (a : PodAlloc) : persistedExcl kind a = a.excl := rfl
 
 /-! ## D. deviceshare ledger (model and proofs: Model/C19Dev.lean, Proofs/C19Dev.lean) -/
 
